@@ -397,7 +397,23 @@ func genCaseTokList(t *rapid.T) CaseTokList {
 	c.Pre = genJunkPrefix(t)
 	if rapid.IntRange(0, 4).Draw(t, "inject") == 0 {
 		c.Inject = rapid.IntRange(0, 1000).Draw(t, "injpos")
-		c.Bad = B{illegalBytes[rapid.IntRange(0, len(illegalBytes)-1).Draw(t, "bad")]}
+		// bytes outside the documented set: always-illegal ones plus those that are
+		// illegal in this mode only ('&' outside URI-parameter mode, ';' with the '&'
+		// separator, ',' and '?' when they are neither separator nor terminator)
+		bad := append([]byte{}, illegalBytes...)
+		for _, ch := range []byte{'&', ';', ',', '?'} {
+			if ch == sep || (term != 0 && ch == term) {
+				continue
+			}
+			if ch == '&' && pf&sipsp.POptTokURIParamF != 0 {
+				continue // allowed there
+			}
+			if ch == '?' && pf&sipsp.POptTokURIParamF == 0 {
+				continue // allowed there
+			}
+			bad = append(bad, ch, ch)
+		}
+		c.Bad = B{bad[uniformIdx(t, "bad", len(bad))]}
 	}
 	return c
 }
